@@ -6,6 +6,7 @@ package c01lib
 
 import (
 	"errors"
+	"hash/crc32"
 	"io"
 	"math"
 	"strings"
@@ -394,4 +395,29 @@ func ReadObs(enc codec.Encoder, r *ChunkReader, dec cipher.BlockCryptor) (Sx, *p
 	kind := ErrKind(err)
 	return List(Bool(panicked), Int(int64(kind)), PacketSx(pkt, BodyToSx(pkt.Body_)), Int(int64(r.Pos)),
 		Int(int64(r.Wanted-r.Start)), Int(int64(r.MaxCap))), pkt, kind
+}
+
+// ForgeCRC returns four bytes x such that crc32.ChecksumIEEE(prefix ++ x) == target (the CRC-32
+// register can be steered to any value with four bytes: walk the table backwards).
+func ForgeCRC(prefix []byte, target uint32) []byte {
+	tab := crc32.IEEETable
+	var top [256]byte
+	for i := 0; i < 256; i++ {
+		top[tab[i]>>24] = byte(i)
+	}
+	want := target ^ 0xFFFFFFFF // register value before the final xor
+	var idx [4]byte
+	r := want
+	for k := 3; k >= 0; k-- {
+		i := top[r>>24]
+		idx[k] = i
+		r = (r ^ tab[i]) << 8
+	}
+	c := crc32.ChecksumIEEE(prefix) ^ 0xFFFFFFFF
+	out := make([]byte, 4)
+	for k := 0; k < 4; k++ {
+		out[k] = byte(c) ^ idx[k]
+		c = tab[idx[k]] ^ (c >> 8)
+	}
+	return out
 }
